@@ -172,6 +172,73 @@ Definition model_seq (c : seq_case) : list (option (list N)) :=
          end) (s_order c) (s_pre c)
   end.
 
+(** a history on ONE path inside one recorded operation: the file at the recorded path is handed to the file
+    handlers several times - to the input handler (HIn) or to the output handler (HOut) - and may be rewritten
+    between two interceptions (other bytes of the same or of another length; what the file system reports about
+    the file besides its size and bytes - modification time, inode - is not an input of the handlers).  Each
+    step carries what the file holds WHEN THAT STEP's interception happens; [fresh] = the replayed operation
+    writes these bytes itself before the step (an output it produces), otherwise the file is as the previous
+    step left it.  Observed per step: HIn - the content of the replayed path right after the replayed call;
+    HOut - the content of the holder restored from the recorded output. *)
+Inductive hvia := HIn | HOut.
+Record hist_case := Hist {
+  hi_explicit : option Q;
+  hi_env : envvar;
+  hi_name : str;
+  hi_in_index : Z;
+  hi_out_index : Z;
+  hi_out_static : bool;
+  hi_steps : list (hvia * bool * (Z * list N));   (* handler, fresh, size and content at that moment *)
+  hi_in_rec : list arg * list (str * arg);   (* the recorded calls name the path RI, the replayed ones PI *)
+  hi_in_play : list arg * list (str * arg);
+  hi_out_rec : list arg * list (str * arg);
+  hi_pre : fstate;                           (* state before the replay *)
+  hi_impl : list (option (list N))
+}.
+
+Definition model_hist (c : hist_case) : list (option (list N)) :=
+  match mk_handler (hi_in_index c) (hi_name c) (hi_explicit c) (hi_env c),
+        mk_handler (hi_out_index c) (hi_name c) (hi_explicit c) (hi_env c) with
+  | Ans h_in, Ans h_out =>
+      (fix go (steps : list (hvia * bool * (Z * list N))) (fs : fstate) : list (option (list N)) :=
+         match steps with
+         | [] => []
+         | (via, fresh, f) :: rest =>
+             let t := [(U"RI", f)] in
+             match via with
+             | HIn =>
+                 match fst (prepare_input h_in (fs_size t) (fs_read t)
+                                          (handler_args_input (fst (hi_in_rec c))) (snd (hi_in_rec c))) with
+                 | Ans v =>
+                     match cassette_trip qp_id qp_id v with
+                     | Some v' =>
+                         let fs' := snd (restore_input h_in (fun _ => true) v'
+                                                       (handler_args_input (fst (hi_in_play c))) (snd (hi_in_play c)) fs) in
+                         fs_get (U"PI") fs' :: go rest fs'
+                     | None => [None]
+                     end
+                 | Raises _ => [None]
+                 end
+             | HOut =>
+                 match fst (prepare_output h_out (fs_size t) (fs_read t)
+                                           (handler_args_output (hi_out_static c) (fst (hi_out_rec c)))
+                                           (snd (hi_out_rec c))) with
+                 | Ans v =>
+                     match cassette_trip qp_id qp_id v with
+                     | Some v' =>
+                         match restore_output v' with
+                         | Ans hd => Some (file_content hd) :: go rest (if fresh then fs_set (U"PI") (snd f) fs else fs)
+                         | Raises _ => [None]
+                         end
+                     | None => [None]
+                     end
+                 | Raises _ => [None]
+                 end
+             end
+         end) (hi_steps c) (hi_pre c)
+  | _, _ => []
+  end.
+
 Inductive case :=
 | CB64 (content impl_enc : list N) (impl_dec : res (list N))
     (* _serialize_file(content)['file_content'] and _deserialize_file of it *)
@@ -179,7 +246,8 @@ Inductive case :=
     (* the constructed handler's limit and _is_file_above_size_limit on a file of that size *)
 | CPath (index : Z) (name : str) (args : list arg) (kwargs : list (str * arg)) (impl : res arg)
 | CTrip (t : trip_case)
-| CSeq (c : seq_case).
+| CSeq (c : seq_case)
+| CHist (c : hist_case).
 
 Definition model_b64 (content : list N) : list N * res (list N) :=
   (b64enc content,
@@ -206,6 +274,7 @@ Definition check_case (c : case) : bool :=
       res_eqb arg_eqb (get_path (Handler index name None) args kwargs) impl
   | CTrip t => obs_eqb (model_trip t) (t_impl t)
   | CSeq c => list_eqb (option_eqb bytes_eqb) (model_seq c) (s_impl c)
+  | CHist c => list_eqb (option_eqb bytes_eqb) (model_hist c) (hi_impl c)
   end.
 
 (** for diagnostics in replay files *)
@@ -222,4 +291,5 @@ Definition model_obs (c : case) : shown :=
   | CPath index name args kwargs _ => ShPath (get_path (Handler index name None) args kwargs)
   | CTrip t => ShTrip (model_trip t)
   | CSeq c => ShSeq (model_seq c)
+  | CHist c => ShSeq (model_hist c)
   end.
